@@ -115,6 +115,29 @@ def judge_py(case, r):
     return fails, info
 
 
+def load_known():
+    out = {}
+    for name in ("known_findings.json", "known_findings_C10.json"):
+        p = cm.VERIF / name
+        if p.exists():
+            for e in json.loads(p.read_text())["entries"]:
+                if e.get("property") == PID and e.get("status") == "finding":
+                    out[e["id"]] = e
+    return out
+
+
+def known_id(case, r):
+    """id of the C10 known finding whose input-class predicate holds, else None"""
+    if case["fn"] == "disk_to_disk":
+        from .c11 import disk_class
+        cls = disk_class(case)
+        if cls == "parallel-offset":
+            return "F20"
+        if cls == "centres-on-line":
+            return "F21"
+    return None
+
+
 def nontrivial_sig(case, r):
     """branch signature used for the distinct/non-trivial count: function, stream, d = 0?"""
     if "exc" in r:
@@ -317,21 +340,30 @@ def run(tier, seed, replay=None):
         if "exc" not in r:
             d, p1, p2 = result_points(c, r)
             R.sample(dict(fn=c["fn"], stream=c["stream"], A=c["A"], B=c["B"], d=d, p1=p1, p2=p2))
-    for c, r, f in bad[:5]:
-        R.failure(f"{c['fn']}: " + "; ".join(f[:3]), c, site=c["fn"])
+    known = load_known()
+    unknown = 0
+    for c, r, f in bad:
+        kid = known_id(c, r)
+        if kid and kid in known:
+            R.known_finding(kid, known[kid]["what"])
+        else:
+            unknown += 1
+            if unknown <= 5:
+                R.failure(f"{c['fn']}: " + "; ".join(f[:3]), c, site=c["fn"])
     R.cov["failures_total"] = len(bad)
+    R.cov["failures_matching_known_findings"] = len(bad) - unknown
     fail_by_fn = {}
     for c, r, f in bad:
         fail_by_fn.setdefault(c["fn"], []).append(f[0][:160])
     R.cov["failures_by_function"] = {k: dict(n=len(v), first=v[0]) for k, v in fail_by_fn.items()}
 
-    if (R.proof_broken or R.corr_broken) and not bad and not replay:
+    if (R.proof_broken or R.corr_broken) and not unknown and not replay:
         extra = gen_cases(R.rng, tier, per_fn=300)
         res2, _ = run_impl_cases(PID, extra, tag="search")
         R.cov["search_evaluations"] = len(extra)
         for c, r in zip(extra, res2):
             f, _ = judge_py(c, r)
-            if f:
+            if f and not (known_id(c, r) in known):
                 R.failure(f"{c['fn']}: " + "; ".join(f[:3]), c, site=c["fn"])
                 break
     return R.finish()
